@@ -6,7 +6,30 @@ from .model import norm_stmt
 from .table import GETATTR, CLS
 
 
-def table_purity(ctx, rule="R-pure-table"):
+def _closure(T, cells):
+    """attributes and raw data keys the given cells are computed from (transitively), both modes."""
+    seen = set(); todo = [(c, m) for c in cells for m in (False, True)]
+    names = set(cells)
+    while todo:
+        k = todo.pop()
+        if k in seen: continue
+        seen.add(k)
+        try: T.cell(*k)
+        except Exception: continue
+        for r in T.reads.get(k, ()):
+            names.add(r)
+            if not r.startswith("_data."): todo.append((r, k[1]))
+    return names
+
+
+def table_purity(ctx, rule="R-pure-table", cells=None, T=None):
+    """cells: restrict alarms to in-place effects on values that this property's attributes are computed from."""
+    reach = None
+    if cells is not None:
+        if T is None:
+            from .table import Table
+            T = Table(ctx.repo)
+        reach = _closure(T, cells)
     for key in (GETATTR, CLS + ".get_measurement", CLS + ".to_dataframe", CLS + ".get_rms", CLS + ".__dir__", CLS + ".__len__", CLS + ".__repr__"):
         if not ctx.repo.has(key): continue
         fn = ctx.repo.get(key)
@@ -21,6 +44,14 @@ def table_purity(ctx, rule="R-pure-table"):
             # the memo write self._cache[name] = val is the one permitted store
             if sk.kind == "store" and sk.target in ("self._cache",):
                 ctx.holds(rule, construct, "memoisation store", where); n += 1; continue
+            if shared and reach is not None:
+                hit = []
+                for l in shared:
+                    r0 = roots(l)[0]
+                    nm = r0[5:].split(".")[0].split("[")[0] if r0.startswith("self.") else None
+                    if nm is None or nm in ("_data", "_cache", "_config") or nm in reach: hit.append(l)
+                if not hit:
+                    ctx.holds(rule, construct, f"in-place {sk.kind} on {', '.join(shared)}: not a value this property's attributes are computed from", where); n += 1; continue
             if shared:
                 root = roots(shared[0])[0]
                 ctx.violated(rule, construct, f"in-place {sk.kind} on a value that shares memory with {', '.join(shared)}: "
